@@ -4,6 +4,8 @@ NOTES = ("Technique family: runtime monitoring and sanitizers. Every verdict is 
          "evidence files report what the monitors saw. See DESIGN.md.")
 
 ENGINES = [
+    {"name": "crash", "path": "harness/src/engines/crash.rs", "serves_properties": ["C02", "C03", "C04"],
+     "kind_free_text": "trace-based crash-consistency monitor: records the device write/fsync trace of real workloads (hook H1), enumerates crash images (cut x subset of unsynced writes x sector tearing), recovers each with the real store and judges against per-key generation histories and acknowledgements; idem mode re-crashes inside recovery's own writes"},
     {"name": "model", "path": "harness/src/engines/model.rs", "serves_properties": ["C01", "C10", "C11", "C12", "C13", "C14", "C16"],
      "kind_free_text": "differential runtime monitor: seeded single-threaded programs over the whole public API executed on the real store and on the reference model M1, compared after every call (result + whole physical state via the H4 accessor); focus modes bias the generator"},
     {"name": "layout", "path": "harness/src/engines/layout.rs", "serves_properties": ["C10", "C05"],
@@ -17,7 +19,28 @@ NOT_YET = {}
 _MODEL_NOTE = ("Trusted: reference model M1 and (where used) independent codec M6; virtual clock hook; H4 read-only accessors. "
                "Bounded program length (120/220 calls), key alphabet (8-70 keys) and value sizes; coverage is what the seeds reach, reported as (method x residency x outcome x config) cells.")
 
+_CRASH_NOTE = ("Trusted: the crash model (issue-order device, fsync barrier, independent loss + one sector-torn write among unsynced writes), the H1 trace hook, "
+               "and the per-key history recorded at the client boundary (one writer per key; real-time order from a global logical clock). Reach = the workloads and cuts enumerated; 16-bit tokens are not attacked cryptographically.")
+
 TEXT = {
+    "C02": {
+        "engine": "crash",
+        "technique": "runtime trace monitoring + enumeration of crash images (cut x lost-subset x sector tearing) replayed into the real recovery; offline oracle over acknowledgement-relative generation windows",
+        "level_text": "For every flush()/clean-drop acknowledgement in the recorded workloads, every later cut of the device trace (all cuts on short traces, all fsync-adjacent cuts plus a seeded sample on long ones) is expanded into images: durable prefix + each subset (all subsets when <=4, else empty/all/singles/leave-one-out/random) of the writes not yet covered by a completed fsync, plus sector-torn variants of the in-flight write. Each distinct image is recovered by the real store; every key must hold a generation no older than the last one completed before the acknowledged call began, and acknowledged deletes must stay deleted.",
+        "level_note": _CRASH_NOTE,
+    },
+    "C03": {
+        "engine": "crash",
+        "technique": "runtime trace monitoring + enumeration of crash images over the whole trace (including first-open of a fresh device) replayed into the real recovery; authenticity oracle over self-describing values; second opinion by an independent decoder",
+        "level_text": "Same image enumeration over the WHOLE trace (from the very first metadata write of a fresh device): every image must reopen; every exposed key must be one the application wrote, with a (value, timestamp, expiry) triple that is exactly one of its generations, not older than the last acknowledged one and not invoked after the cut; values must pass the self-check (complete, right key, right write; ghost record heads / marker images embedded in multi-block values must never surface); len() must equal the number of exposed keys; the independent decoder must see the same contents. One genuine defect found and fixed (fresh-device metadata not fsynced before the first journal write).",
+        "level_note": _CRASH_NOTE,
+    },
+    "C04": {
+        "engine": "crash",
+        "technique": "runtime trace monitoring of recovery's own writes + nested crash-image enumeration inside recovery; dump comparison across repeated opens",
+        "level_text": "Crash images that make recovery write (active journal, stale duplicates, half-retired extents) are opened with the trace hook on: (i) the device is reopened twice more and must yield identical contents; (ii) recovery's own write trace is cut (subsets + tearing) to build image', recovered again and must equal the first successful recovery, with one more nesting level on a sample; (iii) every write issued by recovery must avoid the extents of the records the recovery reported live.",
+        "level_note": _CRASH_NOTE,
+    },
     "C01": {
         "engine": "model",
         "technique": "runtime differential monitoring against an executable last-writer-wins reference model, state compared after every call",
